@@ -198,6 +198,12 @@ TWINS = [
        "every two-armed if statement of the package written the other way round "
        "(test negated, arms exchanged)",
        [{"glob": "pytato/**/*.py", "transform": "invert_if_else"}]),
+    _t("swap-operands-of-symmetric-comparisons",
+       "the operands of every ==, !=, is, is not of the package exchanged",
+       [{"glob": "pytato/**/*.py", "transform": "swap_eq_operands"}]),
+    _t("isinstance-with-tuples",
+       "every isinstance(x, A | B) written as isinstance(x, (A, B))",
+       [{"glob": "pytato/**/*.py", "transform": "isinstance_tuple"}]),
     _t("reverse-keyword-arguments",
        "the keyword arguments of every call in the package written in reverse order",
        [{"glob": "pytato/**/*.py", "transform": "reverse_keywords"}]),
